@@ -468,8 +468,10 @@ func init() {
 			func(v []byte, a int) []byte { return tknRefit(v, "header", a) },
 			func(v []byte, a int) []byte { return tknRefit(v, "tag", a) },
 			func(v []byte, a int) []byte { return tknRefit(v, "id", a) },
+			tknFormulaEdge,
 		}})
 	Register(&Entry{Name: "tkn20.Policy.ExtractFromCiphertext+CouldDecrypt", Seeds: 1, Cost: 10,
+		Aware: []func([]byte, int) []byte{tknFormulaEdge, func(v []byte, a int) []byte { return tknRefit(v, "header", a) }},
 		Valid: func(seed uint64) []byte { tknSetup(); return tknCache.ct },
 		Reuse: func() func(in []byte) Result {
 			var p tkn20.Policy
@@ -636,6 +638,43 @@ func tknRefit(v []byte, field string, a int) []byte {
 			out = append(append(out, put(len(nm), w)...), nm...)
 			return append(append(out, put(len(tag), 2)...), tag...)
 		}
+	}
+	return nil
+}
+
+// tknFormulaEdge finds the Boolean formula inside a tkn20 ciphertext by its shape (a 16-bit
+// little-endian gate count n followed by n gates of 7 bytes: class, in0, in1, out, with the
+// wire numbers of a well-formed formula) and moves one wire number of one gate to an edge of
+// its range: 0, n-1, n, n+1, 2n-1, 2n, 2n+1, 0xffff.
+func tknFormulaEdge(v []byte, a int) []byte {
+	le := func(b []byte) int { return int(b[0]) | int(b[1])<<8 }
+	for off := 0; off+2 <= len(v); off++ {
+		n := le(v[off:])
+		if n < 1 || n > 64 || off+2+7*n > len(v) {
+			continue
+		}
+		ok := true
+		for i := 0; i < n && ok; i++ {
+			g := v[off+2+7*i:]
+			in0, in1, out := le(g[1:]), le(g[3:]), le(g[5:])
+			if g[0] > 1 || in0 > 2*n-1 || in1 > 2*n-1 || out < n+1 || out > 2*n || in0 == in1 {
+				ok = false
+			}
+		}
+		if !ok {
+			continue
+		}
+		if a < 0 {
+			a = -a
+		}
+		gate, field, edge := (a/24)%n, (a/8)%3, a%8
+		val := []int{0, n - 1, n, n + 1, 2*n - 1, 2 * n, 2*n + 1, 0xffff}[edge]
+		if val < 0 {
+			val = 0
+		}
+		pos := off + 2 + 7*gate + 1 + 2*field
+		v[pos], v[pos+1] = byte(val), byte(val>>8)
+		return v
 	}
 	return nil
 }
